@@ -204,3 +204,52 @@ Theorem queue_ctx_nonvacuous :
    closed_of (run init_sst (C06Proofs.ex_pre ++ [EOp 0 v (OWhenQuery (QActive 1) (Some 1))])) 0 = false).
 Proof. exact C06Proofs.queue_ctx_nonvacuous_lemma. Qed.
 Print Assumptions queue_ctx_nonvacuous.
+
+(* ------------------------------------------------------------------------
+   WhenTime (positional thresholds). Notions (Proofs/C06Time.v):
+     tcond sts times cl   every listed state's tick in clock cl >= its threshold
+     time_held            tcond held on the clock of a later processSubscriptions
+     tcoherent c es       the WhenTime-family calls read the clock c of the last
+                          processSubscriptions, whose ClockBefore is c again, of
+                          the same length, ticks never go back; WhenTime gets
+                          duplicate-free states and as many times
+     clks c pre           the clock after the events pre
+   Stated: whentime_iff (closed <-> tcond at subscribe or at the end of a later
+   processed transition) for any list of states. False for duplicate states:
+   WhenTime [A;A] [1;1] counts Total = 2 but has one Completed flag, so the
+   binding never completes although the condition holds. *)
+From AMV Require Proofs.C06Time.
+
+Theorem whentime_dup_refuted :
+  exists (sts : list nat) (times : list N) (v : view) (post : list sevent),
+    let es := EOp 0 v (OWhenTime sts times None) :: post in
+    forallb plain_ev es = true /\ length times = length sts /\
+    C06Time.time_held sts times post = true /\ closed_of (run init_sst es) 0 = false.
+Proof. exact C06Time.whentime_dup_refuted_lemma. Qed.
+Print Assumptions whentime_dup_refuted.
+
+(* what is proved: no lost wake-up, for duplicate-free states, on plain runs
+   with coherent clocks. NOT proved (nor refuted): the converse, closed ->
+   the condition held (it needs the disjointness of the identities of the
+   different indexes); shown by the correspondence run only (codes 2:630, 2:634) *)
+Theorem whentime_partial : forall c0 pre k v sts times ctx post,
+  let es := pre ++ EOp k v (OWhenTime sts times ctx) :: post in
+  forallb plain_ev es = true -> C06Time.tcoherent c0 es -> fresh_k k post ->
+  let c1 := C06Time.clks c0 pre in
+  C06Time.tcond sts times c1 || C06Time.time_held sts times post = true ->
+  closed_of (run init_sst es) k = true.
+Proof. exact C06Time.whentime_no_lost_lemma. Qed.
+Print Assumptions whentime_partial.
+
+Theorem whentime_nonvacuous :
+  let v := {| v_active := []; v_clock := [0; 0]%N; v_qtick := 1; v_running := false;
+              v_window := false; v_applied := false |} in
+  let post := [EProcess [0] [] [0; 0]%N [1; 0]%N 2%N; EProcess [1] [] [1; 0]%N [1; 3]%N 3%N] in
+  let es := [] ++ EOp 0 v (OWhenTime [0; 1] [1; 2]%N None) :: post in
+  forallb plain_ev es = true /\ C06Time.tcoherent [0; 0]%N es /\ fresh_k 0 post /\
+  C06Time.tcond [0; 1] [1; 2]%N (C06Time.clks [0; 0]%N []) = false /\
+  C06Time.time_held [0; 1] [1; 2]%N post = true /\
+  closed_of (run init_sst (EOp 0 v (OWhenTime [0; 1] [1; 2]%N None) :: [hd EPoll post])) 0 = false /\
+  closed_of (run init_sst es) 0 = true.
+Proof. exact C06Time.whentime_nonvacuous_lemma. Qed.
+Print Assumptions whentime_nonvacuous.
